@@ -70,7 +70,7 @@ theorem converter_defaults_documented :
     Gen.C11.em2mrcDefaultInvert = false ∧ Gen.C11.em2mrcDefaultOverwrite = true ∧ Gen.C11.em2mrcDefaultOutput = "None" ∧
     Gen.C11.mrc2emDefaultInvert = false ∧ Gen.C11.mrc2emDefaultOverwrite = true ∧ Gen.C11.mrc2emDefaultOutput = "None" := by decide
 
-/-! #### the normalised bodies (docstrings / comments / exception messages dropped, required positional
+/-! #### the normalised bodies (docstrings / comments / exception messages dropped, `x * (-1)` written `-x`, required positional
 parameters `_p0,_p1`, locals `_v0..` in order of first binding): the model mirrors these statement by
 statement; any edit other than a renaming needs the model to be looked at again -/
 
@@ -90,14 +90,14 @@ theorem read_body_documented : Gen.C11.readBody =
 theorem em2mrc_body_documented : Gen.C11.em2mrcBody =
     ["if not isinstance(_p0, str):\n    raise ValueError\nelif not _p0.endswith('.em'):\n    raise ValueError",
      "_v0 = read(_p0)",
-     "if invert:\n    _v0 = _v0 * -1",
+     "if invert:\n    _v0 = -_v0",
      "if output_name is None:\n    output_name = _p0[:-2] + 'mrc'\nelif not output_name.endswith('.mrc'):\n    raise ValueError",
      "write(_v0, output_name, overwrite=overwrite)"] := rfl
 
 theorem mrc2em_body_documented : Gen.C11.mrc2emBody =
     ["if not isinstance(_p0, str):\n    raise ValueError\nelif not _p0.endswith('.mrc'):\n    raise ValueError",
      "_v0 = read(_p0)",
-     "if invert:\n    _v0 = _v0 * -1",
+     "if invert:\n    _v0 = -_v0",
      "if output_name is None:\n    output_name = _p0[:-3] + 'em'\nelif not output_name.endswith('.em'):\n    raise ValueError",
      "write(_v0, output_name, overwrite=overwrite)"] := rfl
 
@@ -105,7 +105,7 @@ theorem mrc2em_body_documented : Gen.C11.mrc2emBody =
 (read, `* -1`, write with the map's own dtype / `np.single` for float64) -/
 theorem invert_contrast_body_documented : Gen.C11.invertContrastBody =
     ["_p0 = read(_p0)",
-     "_v0 = _p0 * -1",
+     "_v0 = -_p0",
      "if output_name is not None:\n    if _v0.dtype == np.float64:\n        _v1 = np.single\n    else:\n        _v1 = _v0.dtype\n    write(_v0, output_name, data_type=_v1)",
      "return _v0"] := rfl
 
@@ -415,10 +415,23 @@ theorem map_at (d : α) (conv : α → α) (a : Arr α) (h : a.WF) (i j k : Nat)
 
 /-! ### contrast inversion -/
 
-theorem invert_invert (neg : α → α) (hneg : ∀ x, neg (neg x) = x) (a : Arr α) :
+/-- inverting twice gives the map back, provided negating twice is the identity ON THE VOXELS OF THE MAP (IEEE sign flip:
+always; two's complement: every value but the most negative one, which is not generated; the driver's `negIn` on voxels
+of the map's own type) -/
+theorem invert_invert (neg : α → α) (a : Arr α) (hneg : ∀ x ∈ a.data.toList, neg (neg x) = x) :
     applyFactor neg (-1) (applyFactor neg (-1) a) = a := by
-  simp only [applyFactor, if_true, map_map, hneg]
-  exact map_id' a
+  obtain ⟨d0, d1, d2, data⟩ := a
+  simp only [applyFactor, if_true, Arr.map, Arr.mk.injEq, true_and]
+  rw [Array.map_map]
+  apply Array.ext
+  · simp
+  · intro i h1 h2
+    simp only [Array.getElem_map, Function.comp]
+    exact hneg _ (by simp)
+
+/-- the hypothesis of `invert_invert` holds for the negation of integer voxels (`Int`), for every array -/
+example (a : Arr Int) : applyFactor (fun x => -x) (-1) (applyFactor (fun x => -x) (-1) a) = a :=
+  invert_invert _ a (fun x _ => Int.neg_neg x)
 
 /-! ### the converters `em2mrc` / `mrc2em` -/
 
